@@ -308,9 +308,20 @@ Definition closed_is_final (h : history) : Prop :=
     (exists tc, In (tc, RCancel) h /\ tc < t) /\
     (forall t' r, In (t', r) h -> src_of r = Some c -> t' < t \/ (t' = t /\ r = RClose c)).
 
+(* Listeners(ev) returns at least the number of persistent listeners of ev whose
+   registration returned before the call began and whose removal was not even
+   requested before it returned *)
+Definition count_lower_bound (h : history) : Prop :=
+  forall g i ev n ts te (ls : list lid),
+    In (ts, RStart g i (OCount ev)) h -> In (te, REnd g i (OCount ev) n) h ->
+    NoDup ls ->
+    (forall l, In l ls -> exists ga ia ta, In (ta, REnd ga ia (OAdd ev Persistent) l) h /\ ta < ts /\
+                          forall g' i' tr, In (tr, RStart g' i' (ORemove ev l)) h -> te < tr) ->
+    N.of_nat (List.length ls) <= n.
+
 Definition delivery_spec (h : history) : Prop :=
   at_most_once h /\ must_deliver h /\ must_not_deliver h /\ once_not_again h /\
-  source_order h /\ right_listener h /\ closed_is_final h.
+  source_order h /\ right_listener h /\ closed_is_final h /\ count_lower_bound h.
 
 (* The stronger, real-time readings of "never called again" — the two shapes
    the model refutes (see LoopProofs): a one-shot listener called by dispatches
@@ -430,9 +441,32 @@ Definition ok_close (h : history) (tr : N * rec) : bool :=
   | _ => true
   end.
 
+Fixpoint dedup (l : list lid) : list lid :=
+  match l with
+  | [] => []
+  | x :: r => if existsb (fun y => y =? x) r then dedup r else x :: dedup r
+  end.
+(* the persistent listeners of ev certainly registered throughout [ts, te] *)
+Definition surely_registered (h : history) (ev : event) (ts te : N) : list lid :=
+  dedup (flat_map (fun tr => match snd tr with
+                             | REnd _ _ (OAdd ev' Persistent) l =>
+                                 if (ev' =? ev) && (fst tr <? ts) && no_remove_before h ev l te then [l] else []
+                             | _ => [] end) h).
+Definition ok_count (h : history) (tr : N * rec) : bool :=
+  match snd tr with
+  | REnd g i (OCount ev) n =>
+      forallb (fun tr2 => match snd tr2 with
+        | RStart g' i' (OCount ev') =>
+            if Nat.eqb g' g && (i' =? i) && (ev' =? ev)
+            then N.of_nat (List.length (surely_registered h ev (fst tr2) (fst tr))) <=? n else true
+        | _ => true end) h
+  | _ => true
+  end.
+
 Definition history_ok (h : history) : bool :=
   forallb (ok_amo h) h && forallb (ok_must h) h && forallb (ok_mustnot h) h &&
-  forallb (ok_once h) h && forallb (ok_order h) h && forallb (ok_right h) h && forallb (ok_close h) h.
+  forallb (ok_once h) h && forallb (ok_order h) h && forallb (ok_right h) h && forallb (ok_close h) h &&
+  forallb (ok_count h) h.
 
 (* the two real-time readings, as decision procedures (known-finding classes) *)
 Definition ok_once_total (h : history) (tr : N * rec) : bool :=
@@ -456,4 +490,4 @@ Definition ok_after_removal (h : history) (tr : N * rec) : bool :=
 Definition bad (ok : N * rec -> bool) (h : history) : history := filter (fun tr => negb (ok tr)) h.
 Definition verdict_bad (h : history) : history :=
   bad (ok_amo h) h ++ bad (ok_must h) h ++ bad (ok_mustnot h) h ++ bad (ok_once h) h ++
-  bad (ok_order h) h ++ bad (ok_right h) h ++ bad (ok_close h) h.
+  bad (ok_order h) h ++ bad (ok_right h) h ++ bad (ok_close h) h ++ bad (ok_count h) h.
